@@ -178,6 +178,7 @@ def process_deps(tasks, classes):
             try:
                 found = find_full(name, list(tasks), determine_namespace=False)
                 if i['by'] == 'name': name = found
+                elif found != name: raise KeyError(name)       # by class: a homonym of another group is not the class
             except KeyError:
                 if 'default' in i: ins[name] = ('default', i['default']); continue
                 raise BuildError('missing_input', f'{name} of {tname}')
